@@ -340,7 +340,16 @@ def run_batches(cases, model_exe, routing, bindirs, workdir, tag, consume=None):
         return traces, died
     def run_one(job):
         b, prof, base = job
-        r1 = subprocess.run([model_exe, base + ".case", base + ".model", base + ".spec"], stdout=subprocess.PIPE, stderr=subprocess.STDOUT, text=True)
+        # the extracted model recurses over byte lists (storages of a few MiB in the growth-policy cases): give it the stack
+        def _stack():
+            try:
+                import resource
+                hard = resource.getrlimit(resource.RLIMIT_STACK)[1]
+                resource.setrlimit(resource.RLIMIT_STACK, (hard, hard))
+            except Exception:
+                pass
+        r1 = subprocess.run([model_exe, base + ".case", base + ".model", base + ".spec"], stdout=subprocess.PIPE, stderr=subprocess.STDOUT, text=True,
+                            preexec_fn=_stack)
         exe = os.path.join(bindirs[prof], b)
         lines = [l for l in open(base + ".case").read().split("\n") if l]
         traces, died = run_impl(exe, lines, base)
